@@ -39,7 +39,7 @@ def wf_ops(cap, st, sizes, nmax_readers):
     ops = []
     if pending:
         ops += [("wcommit", (False, nr, mapped)), ("wabort", (False, nr, mapped))]
-    else:
+    if True:
         for n in sizes:
             ops.append(("wmap %d" % n, None))  # outcome decides pending
     if nr < nmax_readers:
@@ -82,6 +82,8 @@ def gen_exhaustive(cap, depth, max_readers, with_accept):
         cands = []
         if pending:
             cands += [("wcommit", False, nr, mapped), ("wabort", False, nr, mapped)]
+            # mapping again without ending the write (what source.c does after a failed camera_get_frame)
+            cands += [("wmap %d" % n, True, nr, mapped) for n in sizes[:1] + sizes[-1:]]
         else:
             for n in sizes:
                 cands.append(("wmap %d" % n, True, nr, mapped))
@@ -118,7 +120,7 @@ def gen_random(rng, cap, nops, nreaders_max, frame_mode=False):
             ops.append("join"); nr += 1; mapped.append(True); continue
         r = rng.random()
         if r < 0.42:
-            if pending:
+            if pending and rng.random() < 0.93:
                 ops.append("wcommit" if rng.random() < 0.85 else "wabort"); pending = False
             else:
                 n = rng.choice(pool) if rng.random() < 0.7 else rng.randrange(1, max(2, cap))
@@ -162,7 +164,7 @@ def gen_frames(rng, cap, nops, nreaders_max):
             ops.append("join"); nr += 1; mapped.append(True); continue
         r = rng.random()
         if r < 0.45:
-            if pending:
+            if pending and rng.random() < 0.95:
                 ops.append("wcommit" if rng.random() < 0.9 else "wabort"); pending = False
             else:
                 ops.append("wmap %d" % (F if uniform else rng.choice(sizes))); pending = True
